@@ -356,6 +356,7 @@ class Checker:
         self.opcount = {}
         self.per_stream = {}
         self.timeouts = []
+        self.odd = []
 
     def add(self, stream, seed, e, env, limit=FLOAT_LIMIT):
         mag = [Fraction(0), Fraction(0)]
@@ -452,6 +453,8 @@ class Checker:
         if spec == 'U':
             st['undef'] += 1
             res.count('outside_domain:spec-undef(' + kind_of(real) + ')')
+            if real.startswith('X:') and len(self.odd) < 5:
+                self.odd.append(f'{text!r} cells {dict(env)} -> {real}')
         elif sens:
             st['sens'] += 1
             res.count('outside_domain:rounding-sensitive')
@@ -519,6 +522,9 @@ class Checker:
             if not self.nviol:
                 raise RuntimeError(msg)
             self.res.notes.append(msg)
+        if self.odd:
+            self.res.notes.append('outside the domain (the Spec is silent, nothing compared) the library raised an '
+                                  'exception for: ' + '; '.join(self.odd))
         if self.nviol:
             self.res.count('violating-cases', self.nviol)
         if self.ndrift:
